@@ -116,3 +116,10 @@ claim('C26', 'declared operator table (typed HIR of init_builtin_classes) vs abs
       '(one known finding: Int ** negative Int), and agreement of the wrapper applied at run time with the declared class.',
       'Value-level agreement with the Python built-ins for concrete operands is not decided.',
       'DESIGN.md §3 C26')
+
+claim('C03', 'row-by-row soundness of the comparison-atom arms of is_super_pred_of under a three-orderings model; quantifier structure of the And/Or arms',
+      'Decides (R1) that each atom x atom row (Equal/NotEqual/GreaterEqual/LessEqual on both sides) answers "super" only when the set of integers really is a superset, for every '
+      'ordering of the two constants (complete for the 14 rows; the truth tables of TyParamOrdering::is_lt/canbe_le/... are read from the source), and (R2) that the And arm '
+      'quantifies over the super side and the Or arm over the sub side.',
+      'reduce_preds, Not, General* predicates and the interplay with unification are not decided (e.g. `not (I <= 5)` refinements are accepted for any argument today: outside these rules).',
+      'DESIGN.md §3 C03')
